@@ -8,7 +8,7 @@ Symbolic inputs (all bounded in the harness body, out-of-bound values return Tru
   m1,m2   MCS-stage outcome of row 1 / row 2 (0 search failed, 1 graph analysis failed, 2 empty compound set,
           3 merge raises, 4 merge returns token jj / ww)
   f1,f2   functional-group lookup outcome (index into pipe.FG_CHOICES) for every reaction string of row 1 / row 2
-  c1,c2   confidence model output for row 1 / row 2 (real in [0,1]); thr threshold (real in [0,1])
+  c1,c2   confidence model output for row 1 / row 2, thr threshold: integers 0..4 read as quarters
 Concrete per partition (PART): the reaction strings ("shape"), the element set E, K, whether thr is symbolic.
 """
 from __future__ import annotations
@@ -66,7 +66,7 @@ STUBS_PIPE = [
     "CheckCarbonBalance.count_atoms, is_carbon_balanced -> world carbon counts (kernels proved in C07)",
     "Chem.MolFromSmiles/CanonSmiles in can_parse, get_and_validate_smiles, label_reactions -> validity lookup; a mixture is valid iff every component is",
     "ensemble_mcs / find_graph_dict / build_compounds / merge / MoleculeStandardizer -> outcome stubs: search fails, graph analysis fails, empty compound set, merge raises, or merge returns one complete-molecule token of arbitrary composition",
-    "find_functional_reactivity -> any of 11 functional-group outcomes (all template keys + none + unknown group); count_radical_atoms -> number of '[H]'/'[O]' tokens",
+    "find_functional_reactivity -> any of 8 functional-group outcomes (one per distinct first template of the curation tables + none + unlisted group); count_radical_atoms -> number of '[H]'/'[O]' tokens",
     "xgboost model, feature extraction, numpy rounding -> arbitrary confidence in [0,1]; threshold passed as a comparable object that formats to a placeholder",
     "rule database restricted to the shipped records for [H], O, [O], [H+], [Na+], [Cl-] (the full database is covered by the C08 step queries)",
     "a string obtained by corrupting an abstract molecule (e.g. 'q[H]') is not a molecule in the world",
@@ -103,12 +103,8 @@ def setup_world(PART, a: Dict[str, Any]):
     confs = [a["c1"], a["c2"]]
     for i, rx in enumerate(shape[:2]):
         m = modes[i]
-        fixed = PART.get("mcs")
-        if fixed is not None:
-            m = fixed[i]
-        else:
-            if not bounded(m, 0, 4):
-                return False
+        if not bounded(m, 0, 4):
+            return False
         W.mcs[rx] = m
         mt = MERGE[i]
         W.merge_tok[rx] = mt
@@ -159,12 +155,20 @@ class FgByRow:
 
 def explore(PART, a, thr=None, rows=None, via_rebalance=False, batch_size=None):
     """Run the real pipeline once.  Returns (out_rows, stats) or None if inputs are out of bounds."""
+    for k, v in (PART.get("fix") or {}).items():
+        a[k] = v
     if not setup_world(PART, a):
         return None
     for i in range(len(MERGE)):
         if not merge_in_bounds(PART, a, i):
             return None
     if not (bounded(a["f1"], 0, len(pipe.FG_CHOICES) - 1) and bounded(a["f2"], 0, len(pipe.FG_CHOICES) - 1)):
+        return None
+    # confidences and threshold are integers in 0..CONF_STEPS, read as multiples of 1/CONF_STEPS (no symbolic
+    # floats in pipeline harnesses: the real-valued comparison is the C13 kernel)
+    if not (bounded(a["c1"], 0, CONF_STEPS) and bounded(a["c2"], 0, CONF_STEPS)):
+        return None
+    if thr is not None and not bounded(thr, 0, CONF_STEPS):
         return None
     W.fg = FgByRow(PART["shape"], [a["f1"], a["f2"]])
     t = 0
@@ -179,6 +183,8 @@ def explore(PART, a, thr=None, rows=None, via_rebalance=False, batch_size=None):
         out = pipe.run_pipeline(b, rows, stats)
     return out, stats
 
+
+CONF_STEPS = 4
 
 ARGNAMES = (
     [t + s for t in ABS for s in ("C", "H", "O", "q")]
@@ -213,7 +219,7 @@ def curated_ids(nonunit_only=False):
 
 BOUNDS_PIPE = [
     "rows: 1 or 2 reactions per run; per side <= 3 molecules; abstract molecules j,q,w,x with element counts 0..K (K=2 unless the partition says otherwise) over E (E={C,H} or {C,H,O}), at least one atom, charge -1..1",
-    "merge-result molecules jj/ww: same ranges; MCS outcome in 5 classes; functional-group outcome in 11 classes; confidence and threshold arbitrary reals in [0,1]",
+    "merge-result molecules jj/ww: same ranges; MCS outcome in 5 classes; functional-group outcome in 8 classes (one per distinct behaviour of the curation code); confidence and threshold in {0, 1/4, 1/2, 3/4, 1} (arbitrary reals are covered by the C13 kernel)",
     "real marker molecules in the shapes: O, [H][H], OO (their true compositions from RDKit)",
 ]
 OUTSIDE_PIPE = [
@@ -222,21 +228,60 @@ OUTSIDE_PIPE = [
     "what a corrupted SMILES string denotes in real RDKit (in the world it is not a molecule)",
 ]
 
-SHAPES_Q = [["j>>q"], ["j.w>>q"], ["j>>q.O"], ["j.[H][H]>>q"], ["j>>q.[H][H]"]]
-SHAPES_T = SHAPES_Q + [["j>>q.w"], ["j.j>>q"], ["j.O>>q"], ["j>>q.OO"], ["j.[H][H]>>q.O"], ["j.OO>>q"], ["j>>q.q"]]
+# (shape, K, charge-free tokens).  Single-molecule sides use K=2 (parity of H, two units of every multiplicity
+# branch); shapes with three or four abstract molecules use K=1.
+SHAPES = {
+    "j>>q": (["j>>q"], 2),
+    "j>>q.[H][H]": (["j>>q.[H][H]"], 2),
+    "j.[H][H]>>q": (["j.[H][H]>>q"], 2),
+    "j>>q.O": (["j>>q.O"], 2),
+    "j.O>>q": (["j.O>>q"], 2),
+    "j>>q.OO": (["j>>q.OO"], 2),
+    "j.OO>>q": (["j.OO>>q"], 2),
+    "j.j>>q": (["j.j>>q"], 2),
+    "j>>q.q": (["j>>q.q"], 2),
+    "j.w>>q": (["j.w>>q"], 1),
+    "j>>q.w": (["j>>q.w"], 1),
+}
+SHAPES_Q = ["j>>q"]
+SHAPES_Q2 = ["j>>q.[H][H]", "j.w>>q"]  # quick: only MCS modes 0 and 4
+SHAPES_T = list(SHAPES)
+
+
+def _parts_for(shape_name, modes, E=("C", "H"), tag=""):
+    shape, K = SHAPES[shape_name]
+    out = []
+    for m in modes:
+        if m == 4:
+            for jq in (-1, 0, 1):
+                for qq in (-1, 0, 1):
+                    out.append(("pipe[%s|%sm=%d,jq=%d,qq=%d]" % (shape_name, tag, m, jq, qq),
+                                {"shape": shape, "E": list(E), "K": K, "fix": {"m1": m, "jq": jq, "qq": qq}}, "prop"))
+        else:
+            for jq in (-1, 0, 1):
+                out.append(("pipe[%s|%sm=%d,jq=%d]" % (shape_name, tag, m, jq),
+                            {"shape": shape, "E": list(E), "K": K, "fix": {"m1": m, "jq": jq}}, "prop"))
+    return out
 
 
 def partitions(tier, pid):
     """(name, params, kind) for the shared single-row exploration."""
     out = []
-    shapes = SHAPES_T if tier == "thorough" else SHAPES_Q
-    for shape in shapes:
-        out.append(("pipe[%s]" % ",".join(shape), {"shape": shape, "E": ["C", "H"], "K": 2}, "prop"))
     if tier == "thorough":
-        for m in range(5):
-            out.append(("pipe[j>>q|CHO|m=%d]" % m, {"shape": ["j>>q"], "E": ["C", "H", "O"], "K": 2, "mcs": [m, 0], "_timeout": 3000}, "prop"))
+        for sn in SHAPES_T:
+            out += _parts_for(sn, range(5))
+        out += _parts_for("j>>q", (0, 4), E=("C", "H", "O"), tag="CHO,")
+    else:
+        for sn in SHAPES_Q:
+            out += _parts_for(sn, (0, 2, 4))
+        for sn in SHAPES_Q2:
+            out += _parts_for(sn, (0,))
     return out
 
 
 def witness_findings(pid):
-    return []
+    """Replay the concrete witnesses of the listed findings of `pid` on the real code (real RDKit, no stubs,
+    fresh interpreter)."""
+    from vf import witness
+
+    return witness.run_for(pid)
